@@ -165,3 +165,48 @@ pub fn new_revertible_position<'a, 'info>(
 ) -> Result<crate::states::market::revertible::RevertiblePosition<'a, 'info>> {
     crate::states::market::revertible::RevertiblePosition::new(market, position, allow_market_closed)
 }
+
+/// The revertible virtual inventories of one operation (`RevertibleVirtualInventories` is
+/// crate-private).
+pub struct RevertibleVirtualInventoriesHandle<'info>(
+    crate::states::market::revertible::RevertibleVirtualInventories<'info>,
+);
+
+/// `RemainingAccountsForMarket::new(remaining_accounts, current_market_token, None)` followed by
+/// `load_virtual_inventories()`: what every executing operation does with the virtual inventory
+/// accounts it is given (starts a revertible operation on each of them).
+pub fn load_revertible_virtual_inventories<'info>(
+    remaining_accounts: &'info [AccountInfo<'info>],
+    current_market_token: Pubkey,
+) -> Result<RevertibleVirtualInventoriesHandle<'info>> {
+    let remaining_accounts = crate::ops::market::RemainingAccountsForMarket::new(
+        remaining_accounts,
+        current_market_token,
+        None,
+    )?;
+    Ok(RevertibleVirtualInventoriesHandle(
+        remaining_accounts.load_virtual_inventories()?,
+    ))
+}
+
+/// `RevertibleMarket::new` with the virtual inventories of the operation.
+pub fn new_revertible_market_with_virtual_inventories<'a, 'info>(
+    market: &'a AccountLoader<'info, Market>,
+    virtual_inventories: &'a RevertibleVirtualInventoriesHandle<'info>,
+    event_authority: &'a AccountInfo<'info>,
+    bump: u8,
+) -> Result<RevertibleMarket<'a, 'info>> {
+    RevertibleMarket::new(
+        market,
+        Some(&virtual_inventories.0),
+        EventEmitter::new(event_authority, bump),
+    )
+}
+
+/// `Revertible::commit` of the virtual inventories of the operation.
+pub fn commit_revertible_virtual_inventories(
+    virtual_inventories: RevertibleVirtualInventoriesHandle<'_>,
+) {
+    use crate::states::market::revertible::Revertible;
+    virtual_inventories.0.commit()
+}
